@@ -497,6 +497,7 @@ func runC20(c *Ctx) {
 	runFn := p.SSAFunc(runM)
 	eng := &c20Engine{c: c, p: p, setter: funcObj(setter), colT: colT, stateIdx: stateIdx, memo: map[string][]c20Ret{}, inprog: map[string]bool{}, viol: map[string]string{}, violPos: map[string]string{}}
 	rets := eng.summary(runFn, c20Elem{col: 0, svc: 0, cp: 0, tagNil: -1})
+	c20LastEngine = eng
 	if eng.effects < 8 {
 		c.Undecided("typestate effects interpreted", "-", fmt.Sprintf("only %d state-relevant calls were interpreted (expected ≥ 8): anchors changed", eng.effects))
 	}
@@ -760,3 +761,5 @@ func returnIsFailureOfSetup(r *ssa.Return) bool {
 	}
 	return false
 }
+
+var c20LastEngine *c20Engine
